@@ -32,7 +32,7 @@ ASSUMPTIONS = [
     "reference wire walker and name decoder; RDATA decoded with dns.rdata.from_wire (C02)",
     "maximality of the kept prefix is not demanded; TooBig under prefer_truncation is legitimate only when header+question-less OPT/padding/TSIG alone exceed the limit",
 ]
-REQUIRED = ["mon.response_to_advertised_payload", "mon.direct_renderer_add_tsig", "mon.beyond_64k", "mon.direct_renderer_reservation_rounds", "mon.first_rendering_with_tsig_placeholder", "mon.bulky_opt_record", "mon.direct_renderer", "mon.padding_option_already_present", "mon.render_under_limit", "mon.prefix_check", "mon.tc_rule", "mon.padding_multiple", "mon.toobig_legitimacy", "mon.truncated_outcomes"]
+REQUIRED = ["mon.tsig_with_other_data", "mon.response_to_advertised_payload", "mon.direct_renderer_add_tsig", "mon.beyond_64k", "mon.direct_renderer_reservation_rounds", "mon.first_rendering_with_tsig_placeholder", "mon.bulky_opt_record", "mon.direct_renderer", "mon.padding_option_already_present", "mon.render_under_limit", "mon.prefix_check", "mon.tc_rule", "mon.padding_multiple", "mon.toobig_legitimacy", "mon.truncated_outcomes"]
 BUDGET = {"quick": 32.0, "thorough": 480.0}
 
 
@@ -254,7 +254,7 @@ def check_limit(ctx, spy, m, info, key, L, prefer, full_len, min_len, want_sets,
     if key is not None and L % 2 == 0:
         # as on a message's FIRST rendering: the TSIG record is the placeholder use_tsig() makes (its MAC length comes from a
         # per-algorithm table), not the signed record a previous rendering left behind
-        m.use_tsig(key)
+        m.use_tsig(key, **info.get("tsig_kw", {}))
         ctx.count("mon.first_rendering_with_tsig_placeholder")
     try:
         w = render(m, L, prefer)
@@ -301,7 +301,8 @@ def check_limit(ctx, spy, m, info, key, L, prefer, full_len, min_len, want_sets,
         check_compression(ctx, spy.tables[-1], w, case, ":" + tag, hits=False)  # hits made while rendering rolled-back RRsets are transient
     # parse with the library (TSIG must validate)
     try:
-        m2 = dns.message.from_wire(w, keyring=key, origin=m.origin)
+        # (a record reporting a TSIG error is parsed without validation: validating it raises the peer's error by design)
+        m2 = dns.message.from_wire(w, keyring=key if not info.get("tsig_kw") else False, origin=m.origin)
     except Exception as e:
         ctx.violation(f"truncated-message-not-parseable:{tag}:" + core.exc_sig(e), f"L={L}: {e!r}", case)
         return
@@ -387,10 +388,10 @@ def run(spec, ctx):
                     ctx.count("mon.padding_option_already_present")
                 m.use_edns(max(m.edns, 0), m.ednsflags, m.payload or 1232, options=opts, pad=pad)
                 info["edns"] = m.edns
-            if rng.random() < 0.12:
+            if rng.random() < 0.2:
                 # an OPT record that is large by itself (a long NSID / a bulky private option): limits below its size cannot be
                 # met at all, and the refusal is the too-big error like any other
-                big = dns.edns.GenericOption(rng.choice((3, 65001)), bytes(rng.randrange(256) for _ in range(rng.choice((300, 480, 500, 520, 700, 2000)))))
+                big = dns.edns.GenericOption(rng.choice((3, 65001)), bytes(rng.randrange(256) for _ in range(rng.choice((300, 470, 480, 480, 490, 500, 500, 520, 700, 2000)))))
                 m.use_edns(max(m.edns, 0), m.ednsflags, m.payload or 1232, options=list(m.options) + [big], pad=m.pad)
                 info["edns"] = m.edns
                 ctx.count("mon.bulky_opt_record")
@@ -408,7 +409,11 @@ def run(spec, ctx):
                 alg = rng.choice((dns.tsig.HMAC_SHA256, dns.tsig.HMAC_SHA1, dns.tsig.HMAC_SHA512, dns.tsig.HMAC_SHA256_128, dns.tsig.HMAC_MD5, dns.tsig.HMAC_SHA224,
                                   dns.tsig.HMAC_SHA384, dns.tsig.HMAC_SHA384_192, dns.tsig.HMAC_SHA512_256))
                 key = dns.tsig.Key(kn, bytes(rng.randrange(256) for _ in range(16)), alg)
-                m.use_tsig(key)
+                if rng.random() < 0.2:
+                    # a TSIG error response: BADTIME carries six octets of "other data" (the server's clock) in the record
+                    info["tsig_kw"] = {"tsig_error": 18, "other_data": bytes(rng.randrange(256) for _ in range(6))}
+                    ctx.count("mon.tsig_with_other_data")
+                m.use_tsig(key, **info.get("tsig_kw", {}))
             info["flags0"] = int(m.flags)
             collide = GM.has_case_collision(m, extra=[key.name] if key else [])
             want_sets = want_rr_list(m, collide)
